@@ -9,7 +9,8 @@ Definition Sx (cpp : bool) (ts : list ptok) (tr : ast) (rk : nat) : Prop :=
     rk <= d -> d <= 15 ->
     n + length ts <= f -> length (ts ++ rest) <= f ->
     opos (bef s) -> nojux rest -> ND (bef s) (ts ++ rest) ->
-    (forall r, r < rk -> quiet cpp r (rev ts ++ bef s) (asgn s) rest) ->
+    (forall r a, r < rk -> quiet cpp r (rev ts ++ bef s) a rest) ->
+    (rk = 14 -> forall a, quiet cpp 14 (rev ts ++ bef s) (S a) rest) ->
     cont cpp (comp cpp f) (S f) n rk d (mkafter s ts tr, rest) = Some out ->
     comp cpp (S f) d (s, ts ++ rest) = Some out.
 
@@ -31,7 +32,7 @@ Lemma Sx_atom : forall cpp t,
   match snd t with TLB => False | _ => True end ->
   Sx cpp [t] (L t) 0.
 Proof.
-  intros cpp t Hterm Hnlb f d s rest out n Hrk Hd Hn Hlen Hop Hj Hnd Hq Hc.
+  intros cpp t Hterm Hnlb f d s rest out n Hrk Hd Hn Hlen Hop Hj Hnd Hq Hq14 Hc.
   rewrite comp_eq. cbn [app].
   assert (Hh : p2_head (s, t :: rest) = Some (mkafter s [t] (L t), rest)).
   { unfold p2_head. destruct (snd t) eqn:E; try (unfold scope; apply Hterm; assumption). destruct Hnlb. }
@@ -92,7 +93,7 @@ Lemma Sx_paren : forall cpp ts tr rk l1 l2,
   Sx cpp ts tr rk -> rk <= 15 -> balanced ts ->
   Sx cpp ((l1, TLP) :: ts ++ [(l2, TRP)]) tr 0.
 Proof.
-  intros cpp ts tr rk l1 l2 IH Hrk15 Hbal f d s rest out n _ Hd Hn Hlen Hop Hj Hnd _ Hc.
+  intros cpp ts tr rk l1 l2 IH Hrk15 Hbal f d s rest out n _ Hd Hn Hlen Hop Hj Hnd _ _ Hc.
   cbn [length] in Hn. rewrite app_length in Hn. cbn [length] in Hn.
   cbn [app] in *. rewrite <- app_assoc in *. cbn [app] in *.
   cbn [length] in Hlen. rewrite app_length in Hlen. cbn [length] in Hlen.
@@ -112,7 +113,8 @@ Proof.
     - cbn. split; reflexivity.
     - reflexivity.
     - unfold s1. cbn [set_bef bef]. apply ND_cons. exact Hnd.
-    - intros r Hr. apply quiet_closer; [left; reflexivity|lia].
+    - intros r a Hr. apply quiet_closer; [left; reflexivity|lia].
+    - intros _ a. apply quiet_closer; [left; reflexivity|lia].
     - unfold mkafter. apply cont_quiet; [exact Hrk15|]. intros r Hr. apply quiet_closer; [left; reflexivity|exact Hr]. }
   rewrite Hin.
   assert (Hcall : match bef s with
@@ -164,7 +166,7 @@ Lemma Sx_bin : forall cpp o l ra ta ka rb tb kb,
   ender ra -> starter1 rb -> ra <> [] ->
   Sx cpp (ra ++ (l, TOp (bin_opr o)) :: rb) (B (l, TOp (bin_opr o)) ta tb) (binrank o).
 Proof.
-  intros cpp o l ra ta ka rb tb kb IHa IHb Hka Hkb Hend Hst Hra f d s rest out n Hrk Hd Hn Hlen Hop Hj Hnd Hq Hc.
+  intros cpp o l ra ta ka rb tb kb IHa IHb Hka Hkb Hend Hst Hra f d s rest out n Hrk Hd Hn Hlen Hop Hj Hnd Hq Hq14 Hc.
   destruct (binrank_range o) as [Hk3 Hk13].
   set (k := binrank o) in *. set (op := (l, TOp (bin_opr o))) in *.
   rewrite app_length in Hn. cbn [length] in Hn.
@@ -192,8 +194,9 @@ Proof.
         assert (H := ND_app (ra ++ [op]) (bef s) (rb ++ rest)).
         rewrite <- app_assoc in H. cbn [app] in H. specialize (H Hnd).
         rewrite rev_app_distr in H. cbn [rev app] in H. exact H.
-      - intros r Hr. unfold s1, sa, mkafter. cbn [bef asgn].
+      - intros r a0 Hr. unfold s1, sa, mkafter. cbn [bef asgn].
         rewrite <- rev_mid. apply Hq. lia.
+      - intros E. lia.
       - unfold mkafter. apply cont_quiet; [lia|]. intros r Hr. unfold s1, sa, mkafter. cbn [bef asgn stk depth].
         rewrite <- rev_mid. apply Hq. lia. }
     change (t1 :: rb' ++ rest) with (rb ++ rest). rewrite Hb.
@@ -223,7 +226,8 @@ Proof.
   - exact Hop.
   - reflexivity.
   - exact Hnd.
-  - intros r Hr. apply quiet_binop; [apply ender_aft; exact Hend|]. fold k. lia.
+  - intros r a0 Hr. apply quiet_binop; [apply ender_aft; exact Hend|]. fold k. lia.
+  - intros E. lia.
   - fold sa. unfold cont.
     destruct (Nat.eq_dec ka k) as [->|Hne].
     + apply Hstep; [lia|]. cbn [length] in *. lia.
